@@ -387,7 +387,7 @@ class Gen:
 
     def function(self, sc):
         self.fn_count += 1
-        kind = self.r.randrange(18)
+        kind = self.r.randrange(20)
         name = f"f{self.fn_count}"
         deco = ""
         if self.chance(self.o["decorators"]):
@@ -475,6 +475,35 @@ class Gen:
                 call = f"{name}({arg()}, {arg()})" if two else f"{name}({arg()})"
                 out.append(self.pick([f"println({call})", f"let {name}r = {call}\nprintln({name}r)", f"println({call} + {call})"]))
             out.append(f"println({name}c)")
+        elif kind == 18:        # closures / nested functions returned as the function's LAST EXPRESSION, several instances, noise calls between
+            self.features.add("closure-as-tail-value")
+            v = self.pick([
+                f"fn {name}mk(s) {{\n    let mut c = s\n    let f = fn() {{ c += 1; return c }}\n    f\n}}",
+                f"fn {name}mk(s) {{\n    let mut c = s\n    fn() {{ c += 1; return c }}\n}}".replace("    fn() {", "    let g = fn() {").replace("return c }\n}", "return c }\n    g\n}"),
+                f"fn {name}mk(s) {{\n    let mut c = s\n    fn step() {{ c += 1; return c }}\n    step\n}}",
+                f"fn {name}mk(s) {{\n    let mut c = s\n    if s > 100 {{ fn() {{ c += 2; return c }} }} else {{ fn() {{ c += 1; return c }} }}\n}}".replace("{ fn() {", "{ let h = fn() {").replace("return c } }", "return c }; h }"),
+            ])
+            out.append(v)
+            out.append(f"fn {name}n(a, b, c) {{ let x = a + b + c; let y = x * 2; return y }}")
+            a, b = self.r.randrange(0, 9), self.r.randrange(10, 300)
+            out.append(f"let {name}a = {name}mk({a})")
+            out.append(f"let {name}b = {name}mk({b})")
+            for _ in range(self.r.randrange(3, 7)):
+                out.append(self.pick([f"println({name}a())", f"println({name}b())", f"println({name}n({self.r.randrange(50, 90)}, 60, 70))",
+                                      f"println({name}a() + {name}b())"]))
+        elif kind == 19:        # the left operand is a local that evaluating the right operand changes
+            self.features.add("operand-order")
+            op = self.pick(["+", "-", "*"])
+            out.append(f"fn {name}() {{")
+            out.append(f"    let mut x = {self.r.randrange(1, 9)}")
+            out.append(f"    let bump = fn() {{ x = x + 10; return 100 }}")
+            out.append(f"    let y = x {op} bump()")
+            out.append(f"    let mut a = {self.r.randrange(1, 9)}")
+            out.append(f"    let b = a {op} (a = {self.r.randrange(10, 20)})")
+            out.append(f"    let z = x {op} (x {op} bump())")
+            out.append(f"    return y * 10000 + b * 100 + z + a + x")
+            out.append("}")
+            out.append(f"println({name}())")
         elif kind == 16:        # a lambda parameter named like a top-level constant / inlinable top-level function
             self.features.add("lambda-param-shadows-global")
             c = f"{name}c"
